@@ -94,7 +94,8 @@ type Exec struct {
 	lastNowInit bool
 	uniq     map[string]*Loc // unique.Make canonical objects
 	hidden   map[*Loc]Value  // hidden state for modelled library objects (atomic.Value, sync.Map, ...)
-	goQueue  []func()
+	coros    []*coro
+	curCoro  *coro
 	spawned  []string
 
 	backing  map[*Loc]backRef
@@ -352,6 +353,7 @@ func (e *Exec) fresh(kind string, w int) *Node {
 }
 
 func (e *Exec) runHarness(fn *ssa.Function) (end pathEnd) {
+	defer e.abortCoros()
 	defer func() {
 		if r := recover(); r != nil {
 			if pe, ok := r.(pathEnd); ok {
@@ -1411,7 +1413,7 @@ func (e *Exec) doGo(fr *Frame, g *ssa.Go) {
 	case "run":
 		thunk()
 	case "queue":
-		e.goQueue = append(e.goQueue, thunk)
+		e.spawnCoro(name, thunk)
 	default: // "skip": goroutine bodies are outside the claim
 	}
 }
@@ -1891,6 +1893,9 @@ func (e *Exec) chanSend(ch ChanVal, v Value, blocking bool) bool {
 		return true
 	}
 	if blocking {
+		if e.yield() {
+			return e.chanSend(ch, v, blocking)
+		}
 		panic(pathEnd{EndDeadlock, "send would block" + e.where()})
 	}
 	return false
@@ -1924,21 +1929,8 @@ func (e *Exec) chanRecv(ch ChanVal, blocking bool) (Value, bool) {
 	return nil, false
 }
 
-// yield: the running goroutine is about to block; give the queued goroutines
-// a turn (cooperative scheduling, one legal schedule). Reports whether any of
-// them made progress.
-func (e *Exec) yield() bool {
-	if e.inYield || len(e.goQueue) == 0 || e.yieldBudget <= 0 {
-		return false
-	}
-	e.yieldBudget--
-	e.inYield = true
-	defer func() { e.inYield = false }()
-	before := e.steps
-	nq := len(e.goQueue)
-	e.eng.intercepts["verif:verifRunGoroutines"](e, nil, nil)
-	return len(e.goQueue) != nq || e.steps-before > 200*nq
-}
+// yield: the running thread is about to block; see coro.go.
+func (e *Exec) yield() bool { return e.blocked() }
 
 func (e *Exec) chanReady(ch ChanVal, send bool) bool {
 	if ch.c == nil {
